@@ -506,6 +506,12 @@ fn audit_case(prop: &str, rng: &mut Rng) -> (Vec<Item>, Vec<String>, Vec<String>
             }
         }
     }
+    // an assignment target is never a constant or a parameter (that is rejected on other grounds: E530)
+    for it in items.iter_mut() {
+        if it.kind == "W" && (consts.contains(&it.name) || params.contains(&it.name)) {
+            it.kind = "U".to_string();
+        }
+    }
     let mut lay = flat::Layout::default();
     lay.comments = rng.chance(35);
     lay.no_final_newline = rng.chance(35);
